@@ -4,8 +4,8 @@
    (a) PDO assignments.  A device with CoE offers mapping objects 0x1600.. (RxPDO) and 0x1A00.. (TxPDO); a
        terminal class may choose among them (`out_pdos` / `in_pdos`, written to 0x1C12 / 0x1C13).  Every
        choice of at most MaxTotal PDOs in all (each direction either left as the device has it, or a
-       sequence of distinct PDOs the device offers, no longer than the device's assignment object) is one
-       script:  <<"ASSIGN", case, outset, out, inset, inp>>.
+       sequence of distinct PDOs the device offers that do not exclude each other (PDO parameter objects,
+       subindex 6), no longer than the device's assignment object) is one script:  <<"ASSIGN", case, outset, out, inset, inp>>.
    (b) Probe declarations.  For every entry the device maps (default assignment) and every override of
        Overrides: ProcessDesc(index, subindex, override):  <<"PROBE", case, idx, sub, bits, override>>,
        override = [k |-> "none"] | [k |-> "bit", n] | [k |-> "fmt", c] - only overrides that are
@@ -26,10 +26,12 @@ Init == /\ rec \in {k \in 1 .. Len(Cases) : HasCoE(Cases[k])}
         /\ outset \in BOOLEAN /\ inset \in BOOLEAN /\ out = <<>> /\ inp = <<>>
 Next == /\ Len(out) + Len(inp) < MaxTotal
         /\ \/ /\ outset /\ Len(out) < OdCount(Cases[rec].od, Idx1C12)
-              /\ \E p \in RxOffered(Cases[rec].od) \ SeqRange(out) : out' = Append(out, p)
+              /\ \E p \in RxOffered(Cases[rec].od) \ SeqRange(out) :
+                    AssignmentAdmissible(Cases[rec].od, Append(out, p)) /\ out' = Append(out, p)
               /\ UNCHANGED <<rec, outset, inset, inp>>
            \/ /\ inset /\ Len(inp) < OdCount(Cases[rec].od, Idx1C13)
-              /\ \E p \in TxOffered(Cases[rec].od) \ SeqRange(inp) : inp' = Append(inp, p)
+              /\ \E p \in TxOffered(Cases[rec].od) \ SeqRange(inp) :
+                    AssignmentAdmissible(Cases[rec].od, Append(inp, p)) /\ inp' = Append(inp, p)
               /\ UNCHANGED <<rec, outset, inset, out>>
 Spec == Init /\ [][Next]_<<rec, outset, out, inset, inp>>
 Emit == PrintT(<<"ASSIGN", rec, outset, out, inset, inp>>)
